@@ -39,7 +39,9 @@ func main() {
 	var ids []string
 	if *prop == "all" {
 		for k := range props {
-			ids = append(ids, k)
+			if len(k) == 3 && k[0] == 'C' && k[1] >= '0' && k[1] <= '9' && k[2] >= '0' && k[2] <= '9' {
+				ids = append(ids, k)
+			}
 		}
 		sort.Strings(ids)
 	} else {
